@@ -104,6 +104,7 @@ struct Step {
   std::uint8_t beh = 0;
   std::uint8_t inner_exec = 0;  // for kRunOnExec
   std::uint32_t id = 0;         // id of whatever this step produces
+  bool drop_on = false;         // eager: the FutureOn this step returns is turned into a Future with .On(nullptr)
 };
 
 enum class Src : std::uint8_t {
@@ -177,8 +178,8 @@ constexpr bool SetsInsideF(Src s) {
   return s == Src::AsyncContractNow || s == Src::AsyncContractInline || s == Src::LazyContractNow || s == Src::LazyContractOn;
 }
 
-enum class Sink : std::uint8_t { Get, WaitTouch, Detach, DetachInline, DetachOn, kCount };
-const char* kSinkNames[] = {"Get", "Wait+Touch", "Detach()", "DetachInline(f)", "Detach(e,f)"};
+enum class Sink : std::uint8_t { Get, WaitTouch, Detach, DetachInline, DetachOn, DetachInherit, kCount };
+const char* kSinkNames[] = {"Get", "Wait+Touch", "Detach()", "DetachInline(f)", "Detach(e,f)", "FutureOn::Detach(f)"};
 enum class Start : std::uint8_t { ToFutureGet, ToFutureOnGet, Get, Detach, DetachOn, AsInnerTask, DropUnstarted, CoAwait, AwaitKeep, AwaitTake, kCount };
 constexpr bool StartsThroughHere(Start s) {
   // the head is started by its consumer calling Here()/Next() on it (see the known finding D3)
@@ -396,12 +397,19 @@ class Case final : public sim::CaseBase {
         if (s.attach != Attach::Inline) {
           on = true;
         }
+        if (on && g.Draw(6) == 5) {
+          p.steps.back().drop_on = true;
+          on = false;
+        }
       }
     }
     final_vt = vt;
     if (!p.lazy) {
       p.sink = static_cast<Sink>(g.Draw(static_cast<std::uint32_t>(Sink::kCount)));
       p.sink_exec = AnyExec(g, p05 || p03);
+      if (p.sink == Sink::DetachInherit && !on) {
+        p.sink = Sink::DetachInline;  // only a FutureOn has Detach(f)
+      }
       if (p03) {
         p.drop_future_after_build = g.Draw(6) == 5;
       }
@@ -522,6 +530,9 @@ class Case final : public sim::CaseBase {
         j.KV("exec", kExNames[s.exec]);
       }
       j.KV("takes", kArgNames[static_cast<int>(s.arg)]).KV("returns", kRetNames[static_cast<int>(s.ret)]).KV("behaviour", static_cast<int>(s.beh));
+      if (s.drop_on) {
+        j.KV("then", ".On(nullptr)");
+      }
       if (s.beh == kRunOnExec) {
         j.KV("inner_exec", kExNames[s.inner_exec]);
       }
@@ -840,6 +851,17 @@ class Case final : public sim::CaseBase {
   }
 
   void ApplyStep(const Step& s, int idx) {
+    ApplyStepImpl(s, idx);
+    if (s.drop_on) {
+      if (car.index() == 2) {
+        car = std::get<2>(std::move(car)).On(nullptr);
+      } else if (car.index() == 4) {
+        car = std::get<4>(std::move(car)).On(nullptr);
+      }
+    }
+  }
+
+  void ApplyStepImpl(const Step& s, int idx) {
     Carrier cur = std::move(car);
     car = std::monostate{};
     switch (cur.index()) {
@@ -1113,6 +1135,17 @@ class Case final : public sim::CaseBase {
           LogInvoke(-2, sim::Observe(r, "DetachInline sink"));
           Final<V>(std::move(r), "DetachInline sink");
         });
+        break;
+      case Sink::DetachInherit:
+        if constexpr (std::is_same_v<F, FutOn<T>> || std::is_same_v<F, FutOn<void>>) {
+          std::move(f).Detach([this, cap = T{8888}](Res<V>&& r) {
+            (void)cap.Read("sink capture");
+            LogInvoke(-2, sim::Observe(r, "FutureOn::Detach(f) sink"));
+            Final<V>(std::move(r), "FutureOn::Detach(f) sink");
+          });
+        } else {
+          sim::Fail("HARNESS", "Detach(f) generated for a plain Future");
+        }
         break;
       default:
         std::move(f).Detach(Exec(prog.sink_exec), [this, cap = T{8888}](Res<V>&& r) {
@@ -1470,6 +1503,18 @@ class Case final : public sim::CaseBase {
           m.final = {OKind::Stopped, 0};
         }
         m.invoked.push_back(Invocation{-2, m.final, rejected ? -1 : 1 + p.sink_exec, 0});
+      } else if (p.sink == Sink::DetachInherit) {
+        // runs on the executor carried along the chain
+        bool rejected;
+        if (cur_proxied) {
+          rejected = Rejected(cur_exec, m);
+        } else {
+          rejected = cur_exec == kExStopped;
+        }
+        if (rejected) {
+          m.final = {OKind::Stopped, 0};
+        }
+        m.invoked.push_back(Invocation{-2, m.final, (!rejected && cur_proxied) ? 1 + cur_exec : -1, 0});
       } else if (p.sink == Sink::DetachInline) {
         m.invoked.push_back(Invocation{-2, m.final, -1, 0});
       }
